@@ -83,3 +83,20 @@ class HasMethod:
 
 def gen_function():
     yield 1
+
+
+# classes whose metaclass is not `type` (enum.EnumMeta, abc.ABCMeta): importable, traceable, and they must round-trip
+import abc  # noqa: E402
+import enum  # noqa: E402
+
+
+class Color(enum.Enum):
+    RED = 1
+
+
+class Abstract(abc.ABC):
+    pass
+
+
+class Concrete(Abstract):
+    pass
